@@ -1,14 +1,276 @@
-//! C15 — not implemented yet (stub).
-use crate::report::{Cfg, Meta, Report};
+//! C15 — the cycle limit is enforced exactly.
+//!
+//! Oracle: natural cycle count c comes from an unlimited run; with limit m execution must succeed
+//! iff c <= m, fail with exactly CycleLimitExceeded(m) otherwise; a recording host must not observe
+//! any callback at a clock > m and the callbacks seen must be a prefix of the unlimited run's;
+//! non-terminating programs must stop; ExecutionOptions::new must refuse max < 64 or max < expected.
+
+use crate::case::{exec_host, AsmOutcome, Case, ExecOutcome};
+use crate::gen::{gen_case, GenCfg};
+use crate::host::HostEvent;
+use crate::report::{merge_all, Cfg, Meta, Report};
+use crate::util::{catch, par_map, rng_for, Rng8};
+use miden::ProvingOptions;
+use processor::{ExecutionError, ExecutionOptions, Program};
+use rand::Rng;
+use serde_json::json;
 
 pub fn meta() -> Meta {
-    Meta { level: "exploration", rule: "stub".into(), assumptions: vec![] }
+    Meta {
+        level: "exploration",
+        rule: "each evaluation = one (program, inputs, limit m) run through processor::execute with a recording host; m ranges over {64, c-2, c-1, c, c+1, 2c, random} around the natural cycle count c of the same program (and up to 2^16 for non-terminating programs); distinct = distinct (program shape class, log2(c), relation of m to c)".into(),
+        assumptions: vec!["the natural cycle count is taken from an unlimited run of the same real code".into()],
+    }
 }
 
-pub fn run(_cfg: &Cfg) -> Report {
-    let mut rep = Report::new();
-    rep.inconclusive("not-implemented");
+fn run_limited(case: &Case, prog: &Program, m: u32) -> (ExecOutcome, Vec<HostEvent>) {
+    let opts = match ExecutionOptions::new(Some(m), 64, true) {
+        Ok(o) => o,
+        Err(e) => panic!("options for m={m} refused: {e:?}"),
+    };
+    let mut host = case.host();
+    let out = exec_host(prog, case.stack_inputs(), &mut host, opts);
+    (out, host.events)
+}
+
+fn rel(m: u32, c: u32) -> &'static str {
+    if m < c {
+        if m + 1 == c {
+            "m=c-1"
+        } else {
+            "m<c-1"
+        }
+    } else if m == c {
+        "m=c"
+    } else if m == c + 1 {
+        "m=c+1"
+    } else {
+        "m>c+1"
+    }
+}
+
+pub fn check_program(case: &Case, shape: &str, rng: &mut Rng8, rep: &mut Report) {
+    let prog = match case.assemble() {
+        AsmOutcome::Ok(p) => p,
+        _ => {
+            rep.count("outcome", "asm-fail");
+            return;
+        }
+    };
+    // unlimited reference run (tracing on, so trace decorators are observed too)
+    let mut host = case.host();
+    let opts = ExecutionOptions::default().with_tracing();
+    let c = match exec_host(&prog, case.stack_inputs(), &mut host, opts) {
+        ExecOutcome::Ok(t) => t.trace_len_summary().main_trace_len() as u32,
+        _ => {
+            rep.count("outcome", "exec-fail-unlimited");
+            return;
+        }
+    };
+    let full_events = host.events;
+    rep.count("outcome", "ok");
+    rep.count("log2_c", &format!("{}", 32 - c.leading_zeros()));
+    let mut ms = vec![64u32, c.saturating_sub(2), c.saturating_sub(1), c, c + 1, c.saturating_mul(2), c.saturating_sub(rng.gen_range(0..c.max(1))), u32::MAX];
+    ms.retain(|m| *m >= 64);
+    ms.sort();
+    ms.dedup();
+    for m in ms {
+        let (out, events) = run_limited(case, &prog, m);
+        rep.eval(&format!("{shape}|{}|{}", 32 - c.leading_zeros(), rel(m, c)));
+        rep.count("relation", rel(m, c));
+        let wit = || json!({"kind": "limit", "case": case.to_json(), "limit": m, "natural_cycles": c, "shape": shape});
+        match (&out, c <= m) {
+            (ExecOutcome::Ok(t), true) => {
+                if t.trace_len_summary().main_trace_len() as u32 != c {
+                    rep.violation("cycle-count-depends-on-limit", format!("limit {m}: {} cycles vs {c} unlimited", t.trace_len_summary().main_trace_len()), wit());
+                }
+                if events != full_events {
+                    rep.violation("events-differ-under-sufficient-limit", format!("limit {m} >= c={c} but host callbacks differ"), wit());
+                }
+            }
+            (ExecOutcome::Ok(_), false) => {
+                rep.violation(format!("limit-not-enforced/{}", rel(m, c)), format!("program needs {c} cycles but succeeded with max_cycles={m}"), wit());
+            }
+            (ExecOutcome::Err(ExecutionError::CycleLimitExceeded(x)), false) => {
+                if *x != m {
+                    rep.violation("wrong-limit-in-error", format!("CycleLimitExceeded({x}) for limit {m}"), wit());
+                }
+                // nothing observable after the limit; what was observed is a prefix of the full run
+                if let Some(e) = events.iter().find(|e| e.clk > m) {
+                    rep.violation("callback-after-limit", format!("host callback {:?} at clk {} > limit {m}", e.kind, e.clk), wit());
+                }
+                if events.len() > full_events.len() || events[..] != full_events[..events.len()] {
+                    rep.violation("events-not-a-prefix", format!("callbacks under limit {m} are not a prefix of the unlimited run"), wit());
+                }
+                rep.count("rejected", rel(m, c));
+            }
+            (ExecOutcome::Err(e), false) => {
+                rep.violation(format!("wrong-error/{}", crate::case::err_kind(e)), format!("limit {m} < c={c}: expected CycleLimitExceeded, got {e:?}"), wit());
+            }
+            (ExecOutcome::Err(e), true) => {
+                rep.violation(format!("spurious-failure/{}/{}", rel(m, c), crate::case::err_kind(e)), format!("program needs {c} <= limit {m} but failed: {e:?}"), wit());
+            }
+            (ExecOutcome::Panic(p), _) => {
+                rep.violation(format!("panic/{}", p.site()), format!("panic under limit {m}: {}", p.message), wit());
+            }
+        }
+    }
+    // the limit must also be honoured through prove()
+    if c > 70 && rng.gen_bool(0.05) {
+        let m = c - 1;
+        let eo = ExecutionOptions::new(Some(m), 64, false).unwrap();
+        let po = ProvingOptions::with_96_bit_security(false).with_execution_options(eo);
+        rep.count("prove_path", "tried");
+        match crate::pv::prove(case, &prog, po) {
+            crate::pv::ProveOutcome::Err(e) if e.contains("CycleLimitExceeded") => {}
+            crate::pv::ProveOutcome::Err(e) => rep.violation("prove/wrong-error", e, json!({"kind": "limit", "case": case.to_json(), "limit": m})),
+            crate::pv::ProveOutcome::Ok(..) => rep.violation("prove/limit-not-enforced", format!("prove succeeded with max_cycles={m} < c={c}"), json!({"kind": "limit", "case": case.to_json(), "limit": m})),
+            crate::pv::ProveOutcome::Panic(p) => rep.violation(format!("prove/panic/{}", p.site()), p.message, json!({"kind": "limit", "case": case.to_json(), "limit": m})),
+        }
+    }
+    if rep.samples.len() < 3 {
+        rep.sample(json!({"shape": shape, "natural_cycles": c, "src": crate::report::truncate(&case.src, 200)}));
+    }
+}
+
+fn nonterminating(rep: &mut Report, rng: &mut Rng8) {
+    let progs = [
+        ("loop-push", "begin push.1 while.true push.1 end end".to_string()),
+        ("loop-emit", "begin push.1 while.true emit.7 push.1 end end".to_string()),
+        ("loop-mem", "begin push.1 while.true push.5 mem_store.3 mem_load.3 drop push.1 end end".to_string()),
+        ("loop-nested", "begin push.1 while.true push.1 while.true push.0 end push.1 end end".to_string()),
+        ("loop-call", "proc.f push.1 drop end begin push.1 while.true call.f push.1 end end".to_string()),
+        ("dyn-recursion", "proc.f dynexec end begin procref.f dynexec end".to_string()),
+    ];
+    for (name, src) in progs {
+        let case = Case::new(src);
+        let prog = match case.assemble() {
+            AsmOutcome::Ok(p) => p,
+            AsmOutcome::Err(e) => {
+                rep.count("nonterminating_asm_err", &format!("{name}:{}", crate::report::truncate(&e, 40)));
+                continue;
+            }
+            AsmOutcome::Panic(p) => {
+                rep.count("nonterminating_asm_panic", &format!("{name}:{}", p.site()));
+                continue;
+            }
+        };
+        for m in [64u32, 65, 100, 1 << 10, (1 << 12) + rng.gen_range(0..100), 1 << 16] {
+            if name == "dyn-recursion" && m > 5000 {
+                continue; // unbounded MAST recursion: keep the native stack use modest
+            }
+            let (out, events) = run_limited(&case, &prog, m);
+            rep.eval(&format!("nonterminating|{name}|{m}"));
+            rep.count("nonterminating", name);
+            let wit = || json!({"kind": "limit", "case": case.to_json(), "limit": m, "shape": name});
+            match out {
+                ExecOutcome::Err(ExecutionError::CycleLimitExceeded(x)) if x == m => {
+                    if let Some(e) = events.iter().find(|e| e.clk > m) {
+                        rep.violation("callback-after-limit", format!("callback at clk {} > {m}", e.clk), wit());
+                    }
+                }
+                ExecOutcome::Err(e) => rep.violation(format!("nonterminating/wrong-error/{}", crate::case::err_kind(&e)), format!("{name} with limit {m}: {e:?}"), wit()),
+                ExecOutcome::Ok(_) => rep.violation("nonterminating/succeeded", format!("{name} with limit {m} succeeded"), wit()),
+                ExecOutcome::Panic(p) => rep.violation(format!("nonterminating/panic/{}", p.site()), format!("{name} with limit {m}: {}", p.message), wit()),
+            }
+        }
+    }
+}
+
+fn options_grid(rep: &mut Report) {
+    let vals = [0u32, 1, 63, 64, 65, 1023, 1024, 1025, u32::MAX - 1, u32::MAX];
+    // expected-cycle hints above 2^31 cannot be rounded up to a power of two; not part of the property
+    let exps = [0u32, 1, 63, 64, 65, 1023, 1024, 1025, 1 << 20, 1 << 31];
+    for &max in &vals {
+        for &exp in &exps {
+            rep.eval(&format!("options|{}|{}", max.min(66), exp.min(66)));
+            rep.count("options_grid", if max < 64 { "max<64" } else if max < exp { "max<expected" } else { "valid" });
+            let r = catch(|| ExecutionOptions::new(Some(max), exp, false));
+            let should_fail = max < 64 || max < exp;
+            let wit = json!({"kind": "options", "max": max, "expected": exp});
+            match r {
+                Ok(Ok(o)) => {
+                    if should_fail {
+                        rep.violation("options/accepted-invalid", format!("ExecutionOptions::new(Some({max}), {exp}) accepted"), wit);
+                    } else if o.max_cycles() != max || o.expected_cycles() < exp.min(1 << 31) && exp <= (1 << 31) {
+                        rep.violation("options/wrong-values", format!("max={} expected={} for ({max},{exp})", o.max_cycles(), o.expected_cycles()), wit);
+                    }
+                }
+                Ok(Err(_)) => {
+                    if !should_fail {
+                        rep.violation("options/rejected-valid", format!("ExecutionOptions::new(Some({max}), {exp}) refused"), wit);
+                    }
+                }
+                Err(p) => {
+                    // expected_cycles.next_power_of_two() overflows for exp > 2^31: only a finding if the pair is valid
+                    rep.count("options_panics", &p.site());
+                    if !should_fail {
+                        rep.violation(format!("options/panic/{}", p.site()), format!("ExecutionOptions::new(Some({max}), {exp}) panicked: {}", p.message), wit);
+                    }
+                }
+            }
+        }
+    }
+}
+
+pub fn run(cfg: &Cfg) -> Report {
+    let shards = 32;
+    let per = cfg.n(8, 150);
+    let reports = par_map(shards, |sh| {
+        let mut rng = rng_for(cfg.seed, "C15", sh as u64);
+        let mut rep = Report::new();
+        if sh == 0 {
+            options_grid(&mut rep);
+        }
+        if sh == 1 {
+            nonterminating(&mut rep, &mut rng);
+        }
+        for i in 0..per {
+            match i % 3 {
+                0 => {
+                    // straight-line programs with an emit after every instruction
+                    let n = rng.gen_range(30..400);
+                    let mut body = String::new();
+                    for k in 0..n {
+                        body.push_str(&format!("push.{k} emit.{k} drop trace.{k} "));
+                    }
+                    check_program(&Case::new(format!("begin {body} end")), "straightline-emit", &mut rng, &mut rep);
+                }
+                1 => {
+                    let iters = rng.gen_range(5..200);
+                    let src = format!("begin push.{iters} dup.0 neq.0 while.true emit.1 sub.1 dup.0 neq.0 end drop end");
+                    check_program(&Case::new(src), "counted-loop-emit", &mut rng, &mut rep);
+                }
+                _ => {
+                    let size = rng.gen_range(15..80);
+                    let gc = GenCfg::random(&mut rng, size);
+                    let case = gen_case(&mut rng, &gc);
+                    check_program(&case, "generated", &mut rng, &mut rep);
+                }
+            }
+        }
+        rep
+    });
+    let mut rep = merge_all(reports);
+    rep.floor(rep.hist_len("log2_c") >= 4, "cycle-counts-over-4-powers-of-two");
+    for r in ["m=c-1", "m=c", "m=c+1"] {
+        rep.floor(rep.get_count("relation", r) >= 20, &format!("relation-{r}-20x"));
+    }
+    rep.floor(rep.get_count("nonterminating", "loop-push") >= 1, "nonterminating-programs-run");
     rep
 }
 
-pub fn replay(_v: &serde_json::Value, _rep: &mut Report) {}
+pub fn replay(v: &serde_json::Value, rep: &mut Report) {
+    if v.get("kind").and_then(|k| k.as_str()) == Some("options") {
+        options_grid(rep);
+        return;
+    }
+    if let Some(case) = v.get("case").and_then(Case::from_json) {
+        let mut rng = rng_for(0, "C15-replay", 0);
+        check_program(&case, "replay", &mut rng, rep);
+        if let (Some(m), AsmOutcome::Ok(prog)) = (v.get("limit").and_then(|l| l.as_u64()), case.assemble()) {
+            let (out, _) = run_limited(&case, &prog, m as u32);
+            println!("limit {m}: {}", out.class());
+        }
+    }
+}
